@@ -290,6 +290,15 @@ def evaluate_bundle(prop, spec, bdir, meta):
                 res['distinct_nontrivial'] += 1
                 if len(res['samples']) < 6 and (res['distinct_nontrivial'] % 997 == 1 or len(res['samples']) < 2):
                     res['samples'].append(dict(case=c.line, observations={t: c.obs.get(t) for t in list(c.obs)[:12]}))
+    # a library call that never returned while the harness ran this case: a failing input for the
+    # properties that promise termination / totality; named in the replay of the others
+    hc = meta.get('hang_case')
+    if hc:
+        res['hang_case'] = hc
+        kind = hc.split()[1] if len(hc.split()) > 1 else ''
+        if (prop, kind) in (('C04', 'X'), ('C10', 'X'), ('C05', 'S'), ('C11', 'B'), ('C18', 'B'), ('C15', 'H'), ('C20', 'Y')):
+            res['monitor_failures'].append(dict(what='a library call did not return within the harness time budget while running this case',
+                                                case_line=hc, key='hang', obs_lines=[]))
     n_extra = sum(1 for m in res['mismatches'] if m is None)
     res['mismatches'] = [m for m in res['mismatches'] if m is not None]
     res['mismatches_total'] = len(res['mismatches']) + n_extra
@@ -346,6 +355,8 @@ def extended_search(prop, spec, tier, seed, kf):
             bdir, meta = vlib.bundle(spec['bundle'], t, s)
         except RuntimeError:
             return None
+        if meta.get('harness_rc') == 124:
+            return None      # the harness itself hangs on this code: more seeds would only hang again
         res = evaluate_bundle(prop, spec, bdir, meta)
         for v in res['monitor_failures']:
             if not any(k['match'] in v['case_line'] or k['match'] == v.get('key') for k in kf):
